@@ -27,7 +27,9 @@ pub fn laws() -> Value {
     // alias-agnostic: for every pair of a corpus, equal type ids <=> equal/ordered/hashed alike and equal definitions; otherwise they differ consistently
     macro_rules! c { ($($t:ty),* $(,)?) => { vec![$((stringify!($t), meta_type::<$t>())),*] }; }
     let corpus: Vec<(&str, MetaType)> = c!(u8, u16, u32, str, String, [u8], Vec<u8>, VecDeque<u8>, &'static [u8], Vec<u16>, Box<u32>, Rc<u32>, Arc<u32>, &'static u32, &'static mut u32,
-        Option<u8>, Option<u16>, (u8, u16), (u16, u8), PhantomData<u8>, PhantomData<String>, PhantomData<()>, Box<Rc<u8>>, Box<Vec<u8>>, Arc<String>, [u8; 2], [u8; 3]);
+        Option<u8>, Option<u16>, (u8, u16), (u16, u8), PhantomData<u8>, PhantomData<String>, PhantomData<()>, Box<Rc<u8>>, Box<Vec<u8>>, Arc<String>, [u8; 2], [u8; 3],
+        std::ops::Range<u8>, std::ops::RangeInclusive<u8>, std::ops::Range<u32>, std::ops::RangeInclusive<u32>, Result<u8, u16>, Result<u16, u8>, std::time::Duration, std::collections::BTreeMap<u8, u16>,
+        std::collections::BTreeSet<u8>, std::collections::BinaryHeap<u8>, std::borrow::Cow<'static, u8>, scale::Compact<u8>, scale::Compact<u16>, std::num::NonZeroU8, std::num::NonZeroU16, std::num::NonZeroI8, (u8,), ((u8,),), bool, i8, u64, i64, u128);
     let mut bad: Vec<String> = vec![];
     let mut pairs = 0;
     for (na, a) in &corpus {
